@@ -211,3 +211,11 @@ func (d locKV) Location() common.Location { return d.loc }
 func newMemDB() ethdb.Database {
 	return rawdb.NewDatabase(locKV{memorydb.New(log.Global), common.Location{0, 0}})
 }
+
+// safeStop stops a node's goroutines; a node that came up on a damaged image may not be fully wired
+func safeStop(n *zoneNode) {
+	defer func() { recover() }()
+	if n != nil && n.sl != nil {
+		n.sl.Stop()
+	}
+}
